@@ -316,6 +316,8 @@ def make_print(world, fsys):
             world._step("print")
         obj = a[0] if len(a) == 1 else a
         world.events.append((chan, obj, k.get("end", "\n")))
+        if chan == "stdout" and k.get("flush"):
+            fsys.stdout.flush()              # print(..., flush=True)
     return fake_print
 
 
